@@ -13,7 +13,8 @@ NOT_DECIDED = [
     "closeness of krylov_exp's result to exp(A)v (floating-point numerical analysis; C07 decides the flag clauses)",
     "that H x is the dense Hamiltonian times x for all register sizes (C06: bounded in the number of atoms)",
     "agreement with Pulser's reference emulator within the discretisation error (relational, numerical)",
-    "Hermiticity, trace one and positivity of the density matrix (C16)",
+    "trace one and positivity of the density matrix for all inputs (numerical; the native falsifier samples them). "
+    "Hermiticity: each Lindblad step returns _hermitian_part(...) of the Krylov result (contract clause, F33)",
 ]
 
 
@@ -28,13 +29,19 @@ def build(reg):
         trusted=["torch.autograd.Function.apply(*args) calls forward(ctx, *args)",
                  "krylov_exp and the operator action H*x / L@x are uninterpreted here (C07, C06)",
                  "the step loop and the per-step dt are C14's obligations",
+                 "_hermitian_part(M) is (M + M^dagger)/2: abstract in the wiring contract; the native falsifier checks the "
+                 "returned matrices are Hermitian (bounded)",
                  "storage identity: t.clone() is a new tensor, t.to(...) may return t itself, a state constructor stores "
                  "the tensor it is given (emu_sv/state_vector.py, density_matrix_state.py: `.to(dtype, device)`)"],
     )
 
 
 # negative controls (thorough tier): (name, file, old text, new text)
-CONTROLS = [('evolving state shares storage with the configured initial state',
+CONTROLS = [('Lindblad step returns the raw Krylov result (the repaired defect F33)',
+  'emu_sv/time_evolution.py',
+  'return _hermitian_part(evolved), ham',
+  'return evolved, ham'),
+ ('evolving state shares storage with the configured initial state',
   'emu_sv/sv_backend_impl.py',
   'config.initial_state.data.clone(), gpu=self.resolved_gpu',
   'config.initial_state.data, gpu=self.resolved_gpu'),
